@@ -162,4 +162,12 @@ PROPS = {
         ],
         "assumptions": ["the graph is unchanged between submit and resume", "job ids are compared through the index of the submit that created them"],
     },
+    "C18": {
+        "trusted_base": [
+            "Model/Bulk.v bulk_step mirrors the loop of server/api.go:BulkAdd (schema-graph refusal, per-graph stream switching with wait, validation, counting); a stream's writes are applied when it is closed, in order, as kvgraph.BulkAdd does in one bulk write; seq_step is AddVertex/AddEdge one at a time",
+            "validation is Model/Keys.v's (C16) lifted to elements; chunks/batched mirror util.StreamBatch's batching (used by the drivers that batch; kvgraph itself does not batch)",
+            "the observable graph of a write log is last-write-per-id (table_of); re-adding an edge id with other endpoints (C03's known finding) is avoided by the generator",
+        ],
+        "assumptions": ["the authorization filter in front of BulkAdd is C05_bulk's subject", "errors raised by the store inside a bulk write are not modelled"],
+    },
 }
